@@ -356,7 +356,7 @@ def _run_batch(fam, famname, prop, scs, pool, res):
             res['samples'].append(sc)
         d = common.first_diff(flat, model_out[j])
         if d is not None:
-            res['mismatches'].append(dict(name=name, scenario=sc, pos=d,
+            res['mismatches'].append(dict(name=name, family=famname, scenario=sc, pos=d,
                                           impl=flat[max(0, d - 8):d + 4], model=model_out[j][max(0, d - 8):d + 4],
                                           where=fam.locate(sc, flat, d) if hasattr(fam, 'locate') else None))
         for v in mon.get(prop, []):
@@ -366,7 +366,7 @@ def _run_batch(fam, famname, prop, scs, pool, res):
             res['skipped'] += 1
         elif r[0] == 'crash':
             res['evaluations'] += 1
-            res['mismatches'].append(dict(name=scs[i][0], scenario=scs[i][1], pos=-1, crash=r[1], tb=r[2]))
+            res['mismatches'].append(dict(name=scs[i][0], family=famname, scenario=scs[i][1], pos=-1, crash=r[1], tb=r[2]))
 
 
 # --------------------------------------------------------------------------- findings / replay
@@ -540,7 +540,7 @@ def main(argv):
         rc, nviol = 1, len(new_viol)
     elif broken:
         what = dict(broken_obligations=b['broken'],
-                    correspondence=[dict(family=None, name=m['name'], pos=m['pos'], impl=m.get('impl'),
+                    correspondence=[dict(family=m.get('family'), name=m['name'], pos=m['pos'], impl=m.get('impl'),
                                          model=m.get('model'), crash=m.get('crash'), where=m.get('where'),
                                          scenario=m['scenario']) for m in mismatches[:3]],
                     note='no concrete failing input was found by the monitors; the property is no longer shown to hold')
